@@ -25,6 +25,7 @@ package sctp
 //@   safety C03
 //@ func chunkForwardTSN.unmarshal
 //@   loop 1 invariant#offset offset >= 4 && remaining >= 0 && offset+remaining == len(c.raw)
+//@   at call chunkForwardTSNStream.unmarshal assert#stream-entries-come-from-the-chunk-s-own-value{C12} suffixOf(arg1, c.raw)
 //@   loop 1 decreases remaining
 //@   tags C03
 //@   safety C03
